@@ -24,6 +24,7 @@ func (a *aofRun) rewriteConc(i int) (int, bool) {
 		args []string
 		c    *Client
 		res  *Result
+		keys []string // "db/key" of the keys the command names
 	}
 	var ws []*wr
 	consumed := 0
@@ -55,6 +56,13 @@ func (a *aofRun) rewriteConc(i int) (int, bool) {
 			used[k] = true
 		}
 		w := &wr{args: args}
+		db := a.embdb
+		if a.client(op).TCP {
+			db = a.tcpdb
+		}
+		for _, k := range ks {
+			w.keys = append(w.keys, fmt.Sprintf("%d/%s", db, k))
+		}
 		if a.client(op).TCP {
 			w.c = s.NewTCPClient(a.inst, fmt.Sprintf("g%dw%d", a.gen, j))
 			if a.tcpdb != 0 {
@@ -83,7 +91,12 @@ func (a *aofRun) rewriteConc(i int) (int, bool) {
 		w.c.Start(w.args, func(r Result) { w.res = &r })
 	}
 	last := a.states[len(a.states)-1]
+	phaseStart := last
+	crashAt := int(p.Ops[i].N) // 0 = no crash inside the phase
 	for step := 0; step < 4000; step++ {
+		if crashAt > 0 && step == crashAt && len(ws) > 0 {
+			return consumed, a.crashInConc(phaseStart, ws2groups(len(ws), func(j int) ([]string, bool) { return ws[j].keys, ws[j].res != nil }), rw != nil)
+		}
 		parked := s.ParkedTasks()
 		if len(parked) == 0 {
 			// a TCP reply may still be in flight, or the rewrite goroutine sleeps on the fake clock
@@ -233,4 +246,121 @@ func (a *aofRun) writePair(opA, opB Op) bool {
 	ok := a.recover(a.nextImage(a.disk.Image), len(a.states)-1, nil, "kill right after two concurrent writes")
 	a.pairProbe = false
 	return ok
+}
+
+type concGroup struct {
+	keys  []string
+	acked bool
+}
+
+func ws2groups(n int, f func(j int) ([]string, bool)) []concGroup {
+	out := make([]concGroup, n)
+	for j := range out {
+		out[j].keys, out[j].acked = f(j)
+	}
+	return out
+}
+
+// crashInConc kills the process in the middle of the concurrent phase (between two scheduling steps) and checks the
+// restore key group by key group: the writers name pairwise disjoint keys, so whatever order the log holds them in,
+// every group must be restored either as it was before the phase or as the live server held it at the crash, and
+// as the latter if its command had been acknowledged; every other key must be as before the phase.
+func (a *aofRun) crashInConc(phaseStart map[string]string, groups []concGroup, rewriteDone bool) bool {
+	s := a.s
+	// where is the rewrite? (a crash between the preamble and the truncation of the log is a recorded finding)
+	site := ""
+	for _, t := range s.ParkedTasks() {
+		if t.Site == "rewrite.after_preamble" {
+			site = t.Site
+		}
+	}
+	before := phaseStart
+	a.names = append(a.names, "crash-in-conc")
+	a.disk.CrashNow("kill")
+	dead := DataMap(a.inst.DB.VerifDump(), false)
+	if !a.boot(a.nextImage(a.disk.Image)) {
+		return false
+	}
+	a.restores++
+	a.o.Trivial = false
+	now := nowMs()
+	got := StripExpired(a.inst.DB.VerifDump(), now, false)
+	expired := func(v string) bool {
+		if i := strings.LastIndex(v, " @"); i >= 0 {
+			var ms int64
+			if _, err := fmt.Sscan(v[i+2:], &ms); err == nil && ms <= now {
+				return true
+			}
+		}
+		return false
+	}
+	val := func(m map[string]string, k string) string {
+		if v, ok := m[k]; ok && !expired(v) {
+			return v
+		}
+		return ""
+	}
+	inGroup := map[string]bool{}
+	problem := ""
+	for _, g := range groups {
+		same := func(ref map[string]string) bool {
+			for _, k := range g.keys {
+				if val(got, k) != val(ref, k) {
+					return false
+				}
+			}
+			return true
+		}
+		for _, k := range g.keys {
+			inGroup[k] = true
+		}
+		switch {
+		case same(dead):
+		case same(before) && !g.acked:
+		case g.acked:
+			problem = fmt.Sprintf("keys %v of a command acknowledged before the crash are not restored as the server held them", g.keys)
+		default:
+			problem = fmt.Sprintf("keys %v of a command in flight at the crash are restored neither as before nor as after it", g.keys)
+		}
+	}
+	keys := map[string]bool{}
+	for k := range got {
+		keys[k] = true
+	}
+	for k := range before {
+		keys[k] = true
+	}
+	for k := range keys {
+		if !inGroup[k] && val(got, k) != val(before, k) && problem == "" {
+			problem = fmt.Sprintf("key %s, which no command of the phase names, changed: %q -> %q", k, val(before, k), val(got, k))
+		}
+	}
+	if problem != "" {
+		sig := "concurrent-writer/crash"
+		if site != "" {
+			sig = "rewrite-crash@" + site
+		}
+		a.fail(sig, fmt.Sprintf("kill in the middle of REWRITEAOF with concurrent writers (rewrite finished: %v, rewrite task at %q): %s; restored vs live at the crash: %s", rewriteDone, site, problem, DiffData(got, StripMap(dead, now), "restored", "live", 5)))
+		return false
+	}
+	a.states = []map[string]string{a.dump()}
+	a.syncedUp = 0
+	a.concWriters = false
+	a.rewriteCrashSite, a.crashSites = "", nil
+	return true
+}
+
+// StripMap drops entries whose deadline has passed.
+func StripMap(m map[string]string, now int64) map[string]string {
+	out := map[string]string{}
+	for k, v := range m {
+		if i := strings.LastIndex(v, " @"); i >= 0 {
+			var ms int64
+			if _, err := fmt.Sscan(v[i+2:], &ms); err == nil && ms <= now {
+				continue
+			}
+		}
+		out[k] = v
+	}
+	return out
 }
